@@ -104,4 +104,145 @@ theorem seek_refines {s : List Nat} {r r' : Reader} {p : Nat} (h : Inv s r)
       simp only
       rw [h.2]; congr 1; omega
 
+/-! ### the scan as a reader script -/
+
+theorem readBlocks_refines {s : List Nat} (k : Nat) :
+    ∀ {r : Reader}, Inv s r → r.pos ≤ s.length →
+      Inv s (r.readBlocks k) ∧ (r.readBlocks k).pos = min s.length (r.pos + k * blockSize) ∧
+      (r.readBlocks k).buf = r.buf := by
+  induction k with
+  | zero => intro r h hp; exact ⟨h, by simp [Reader.readBlocks]; omega, rfl⟩
+  | succ k ih =>
+    intro r h hp
+    obtain ⟨h1, h2, h3, h4⟩ := read_refines h (some blockSize)
+    simp only at h1
+    have hlen : (r.read (some blockSize)).1.length = min blockSize (s.length - r.pos) := by
+      rw [h1]; simp
+    have hp' : (r.read (some blockSize)).2.pos ≤ s.length := by rw [h3, hlen]; omega
+    obtain ⟨i1, i2, i3⟩ := ih h2 hp'
+    refine ⟨i1, ?_, by simp only [Reader.readBlocks]; rw [i3, h4]⟩
+    simp only [Reader.readBlocks]
+    rw [i2, h3, hlen]
+    have : (k + 1) * blockSize = blockSize + k * blockSize := by
+      rw [Nat.add_mul]; omega
+    rw [this]
+    omega
+
+/-! ### traces of a build -/
+
+/-- a `parsed` event of a resource for which defusing applies directly follows the `scanned`
+    event of the same resource, and the resource is not one that must be refused -/
+def parseOk (m : Mode) (prev : Option Ev) : Ev → Prop
+  | .parsed r => isDefused m r.base = true → prev = some (.scanned r) ∧ r.mustRefuse = false
+  | _ => True
+
+def okFrom (m : Mode) : Option Ev → List Ev → Prop
+  | _, [] => True
+  | prev, e :: t => parseOk m prev e ∧ okFrom m (some e) t
+
+def lastOr (prev : Option Ev) : List Ev → Option Ev
+  | [] => prev
+  | e :: t => lastOr (some e) t
+
+theorem okFrom_append (m : Mode) (a b : List Ev) :
+    ∀ prev, okFrom m prev (a ++ b) ↔ okFrom m prev a ∧ okFrom m (lastOr prev a) b := by
+  induction a with
+  | nil => intro prev; simp [okFrom, lastOr]
+  | cons e t ih =>
+    intro prev
+    simp only [List.cons_append, okFrom, lastOr, ih (some e)]
+    exact and_assoc.symm
+
+/-- reading the invariant back as a statement about positions in the trace -/
+theorem okFrom_spec (m : Mode) (r : Res) (post : List Ev) (hd : isDefused m r.base = true) :
+    ∀ (pre : List Ev) (prev : Option Ev), okFrom m prev (pre ++ .parsed r :: post) →
+      r.mustRefuse = false ∧ lastOr prev pre = some (.scanned r) := by
+  intro pre
+  induction pre with
+  | nil =>
+    intro prev h
+    simp only [List.nil_append, okFrom, parseOk] at h
+    exact ⟨(h.1 hd).2, (h.1 hd).1⟩
+  | cons e t ih =>
+    intro prev h
+    simp only [List.cons_append, okFrom] at h
+    exact ih (some e) h.2
+
+theorem lastOr_some_iff (pre : List Ev) (e : Ev) (h : lastOr none pre = some e) :
+    ∃ pre', pre = pre' ++ [e] := by
+  have gen : ∀ (pre : List Ev) (prev : Option Ev), lastOr prev pre = some e →
+      (pre = [] ∧ prev = some e) ∨ ∃ pre', pre = pre' ++ [e] := by
+    intro pre
+    induction pre with
+    | nil => intro prev h; exact Or.inl ⟨rfl, h⟩
+    | cons x t ih =>
+      intro prev h
+      rcases ih (some x) h with ⟨ht, hx⟩ | ⟨p', hp'⟩
+      · cases hx; subst ht; exact Or.inr ⟨[], rfl⟩
+      · exact Or.inr ⟨x :: p', by rw [hp']; rfl⟩
+  rcases gen pre none h with ⟨-, hn⟩ | h'
+  · cases hn
+  · exact h'
+
+theorem plan_ne_noDefuse (m : Mode) (b : BaseClass) (ch : Chan) (hd : isDefused m b = true) :
+    plan m b ch ≠ .noDefuse := by
+  unfold plan
+  simp only [hd, Bool.not_true, Bool.false_eq_true, if_false]
+  repeat' split
+  all_goals simp
+
+theorem resEvents_ok (m : Mode) (r : Res) : ∀ prev, okFrom m prev (resEvents m r) := by
+  intro prev
+  by_cases hd : isDefused m r.base = true
+  · have hp : plan m r.base r.ch ≠ .noDefuse := plan_ne_noDefuse m r.base r.ch hd
+    by_cases ho : resOutcome m r = .parsed
+    · have hmr : r.mustRefuse = false := by
+        unfold resOutcome outcomeDoc at ho
+        cases hpl : plan m r.base r.ch <;> cases hm : r.mustRefuse <;> simp_all [outcome]
+      have hnr : plan m r.base r.ch ≠ .refuse := by
+        intro e
+        unfold resOutcome outcomeDoc at ho
+        simp [e, outcome] at ho
+      unfold resEvents
+      cases hpl : plan m r.base r.ch <;> simp_all [okFrom, parseOk]
+    · unfold resEvents
+      cases hpl : plan m r.base r.ch <;> simp_all [okFrom, parseOk]
+  · have hd' : isDefused m r.base = false := by simpa using hd
+    unfold resEvents
+    cases hpl : plan m r.base r.ch <;> by_cases ho : resOutcome m r = .parsed <;>
+      simp [okFrom, parseOk, hd', ho]
+
+theorem build_ok (m : Mode) (f : Forest) : ∀ prev, okFrom m prev (build m f).1 := by
+  induction f with
+  | nil => intro prev; simp [build, okFrom]
+  | cons r k c s ihc ihs =>
+    intro prev
+    have hr := resEvents_ok m r
+    by_cases ho : resOutcome m r = .parsed
+    · cases hc : (build m c).2 with
+      | ok =>
+        have e : (build m (.cons r k c s)).1 = (resEvents m r ++ (build m c).1) ++ (build m s).1 := by
+          simp [build, ho, hc]
+        rw [e, okFrom_append, okFrom_append]
+        exact ⟨⟨hr _, ihc _⟩, ihs _⟩
+      | raised o =>
+        by_cases hs : swallowed k o = true
+        · have e : (build m (.cons r k c s)).1 = (resEvents m r ++ (build m c).1) ++ (build m s).1 := by
+            simp [build, ho, hc, hs]
+          rw [e, okFrom_append, okFrom_append]
+          exact ⟨⟨hr _, ihc _⟩, ihs _⟩
+        · have e : (build m (.cons r k c s)).1 = resEvents m r ++ (build m c).1 := by
+            simp [build, ho, hc, hs]
+          rw [e, okFrom_append]
+          exact ⟨hr _, ihc _⟩
+    · by_cases hs : swallowed k (resOutcome m r) = true
+      · have e : (build m (.cons r k c s)).1 = resEvents m r ++ (build m s).1 := by
+          simp [build, ho, hs]
+        rw [e, okFrom_append]
+        exact ⟨hr _, ihs _⟩
+      · have e : (build m (.cons r k c s)).1 = resEvents m r := by
+          simp [build, ho, hs]
+        rw [e]
+        exact hr _
+
 end XsVerif.Defuse
